@@ -6,5 +6,5 @@ mkdir -p bin evidence replays work
 cd harness || exit 1
 go build -o ../bin/vcheck ./cmd/vcheck || exit 1
 go build -tags verif -o ../bin/vchild ./cmd/vchild || exit 1
-go build -race -tags verif -o ../bin/vchild-race ./cmd/vchild || exit 1
+go build -race -gcflags=all=-d=checkptr=0 -tags verif -o ../bin/vchild-race ./cmd/vchild || exit 1
 echo setup ok
